@@ -106,6 +106,19 @@ class World:
                         bad.append([n, side, i + 1])
         return bad
 
+    def shared_placeholders(self):
+        """Placeholder objects sitting in two ports (a stream-less connection between two units).  The model's
+        placeholders are anonymous, so steps taken from such a state are not judged (obs.suspend)."""
+        seen = set()
+        for u in self.units.values():
+            for port in (u.ins, u.outs):
+                for s in port:
+                    if isinstance(s, nw.AbstractMissingStream):
+                        if id(s) in seen:
+                            return True
+                        seen.add(id(s))
+        return False
+
     # ---- state construction --------------------------------------------
     def set_state(self, st):
         """Put the real objects directly into abstract state st (used for TLC-dumped states)."""
@@ -139,13 +152,14 @@ class World:
         """Apply one operation through the public API.  Returns obs dict."""
         res = NONE
         exc = NONE
+        suspend = self.shared_placeholders()
         try:
             with warnings.catch_warnings():
                 warnings.simplefilter('ignore')
                 res = self._apply(op, a)
         except Exception as e:  # recorded, judged by the spec
             exc = type(e).__name__
-        return dict(exc=exc, res=res, ph_bad=self.placeholder_defects())
+        return dict(exc=exc, res=res, ph_bad=self.placeholder_defects(), suspend=suspend)
 
     def _apply(self, op, a):
         S = self.streams
